@@ -144,6 +144,10 @@ NEEDS = {
     'C17-7': 'a conforming archive with chunk data stored in descending / permuted order: overlap check walks dictionary order',
     'C17-8': 'a conforming archive stored in permuted order: reported archive size taken from the last descriptor',
     'C17-9': 'a source larger than 4 GiB: offset accumulator of a rewritten scan() inferred as u32',
+    # ---- C07 (claimed in the third session; seeded afterwards)
+    'C07-1': 'a schedule: a body fragment ending exactly on a chunk boundary inside a run - request dropped when the buffer runs dry',
+    'C07-2': 'more than 4096 back-to-back chunks all missing: take(MAX - 1) in front of the adjacency take_while',
+    'C07-3': 'an archive of another writer with a chunk stored larger than its source size: fetch size clamped to the source size',
 }
 WHY_MISSED = {
     'C03-2': 'not decided by design: correctness of the DFS reorder planner (graph algorithm over runtime data)',
